@@ -65,6 +65,8 @@ namespace awkward {
     for (auto x : contents_) {
       x.get()->clear();
     }
+    // (no member is being filled in a cleared builder)
+    current_ = -1;
   }
 
   const ContentPtr
